@@ -83,7 +83,7 @@ func main() {
 		self = os.Args[0]
 	}
 
-	modes := []string{"seq", "conc"}
+	modes := []string{"seq", "conc", "extra"}
 	raceKeysSeen := map[string]bool{}
 	for _, mode := range modes {
 		t0 := time.Now()
@@ -297,6 +297,8 @@ func childMain(mode string) {
 		childSeq(r, out)
 	case "conc":
 		childConc(r, out)
+	case "extra":
+		childExtra(r, out)
 	default:
 		fmt.Fprintln(os.Stderr, "unknown worker mode", mode)
 		os.Exit(3)
